@@ -86,8 +86,9 @@ def _project(desc, idx):
 
 
 class Exits:
-    def __init__(self, prog, body, effects=False, sinks=None, cap_env=None, closures=False):
+    def __init__(self, prog, body, effects=False, sinks=None, cap_env=None, closures=False, guarded=False):
         self.prog, self.body = prog, body
+        self.guarded = guarded
         self.closures = closures
         self.cap_env = cap_env or {}
         self.effects = effects
@@ -743,8 +744,8 @@ class Exits:
                 if c is None or c.name == self.body.name:
                     continue
                 from .census import inlined as _inl
-                sub = Exits(self.prog, _inl(self.prog, c), effects=self.effects, sinks=self.sinks.pattern if self.sinks else None,
-                            cap_env=self.capture_env(st.rhs), closures=self.closures)
+                sub = Exits(self.prog, _inl(self.prog, c, sinks=self.sinks.pattern if self.sinks else None), effects=self.effects, sinks=self.sinks.pattern if self.sinks else None,
+                            cap_env=self.capture_env(st.rhs), closures=self.closures, guarded=self.guarded)
                 outer = sorted(filter(None, {self.branch_atom(a, s) for (a, s) in self.closure_edges(bid)}))
                 for e in sub.census(depth + 1):
                     if e.get('effect') or self.closures:
@@ -760,7 +761,7 @@ class Exits:
         exits = []
         for bid, span, label, raw in self.raw_exits():
             if raw == 'effect':
-                exits.append({'bid': bid, 'span': span, 'label': label, 'cls': 'exact', 'effect': True})
+                exits.append({'bid': bid, 'span': span, 'label': label, 'cls': 'sink' if (self.guarded and label.startswith('call ')) else 'exact', 'effect': True})
             else:
                 exits += self.flatten(bid, span, label, raw)
         for e in exits:
